@@ -80,7 +80,7 @@ class Contract:
             for name, t in case.ensures(pre, post, a, ret.t if ret is not None else None):
                 st.assume(t)
             exc = self.make_exc(ip, case) if case.raises is not None else None
-            ctx.unit.after_suspending_call(ip, self, a, case, exc)
+            ctx.unit.after_suspending_call(ip, self, a, case, exc, ret)
             if exc is not None:
                 raise PyExc(exc)
             return ret
@@ -241,7 +241,7 @@ class Unit:
     def await_model(self, ip, aw):
         return NotImplemented
 
-    def after_suspending_call(self, ip, contract, a, case, exc):
+    def after_suspending_call(self, ip, contract, a, case, exc, ret=None):
         pass
 
     def init_object(self, ip, info, ref):
